@@ -7,25 +7,44 @@
 #include <cstdlib>
 #include <set>
 #include <utility>
+#include <vector>
 using namespace souffle;
-int main(int argc, char** argv) {
-    if (argc < 5) return 2;
-    int b0 = std::atoi(argv[1]), b1 = std::atoi(argv[2]);
-    RamDomain v0 = (RamDomain)std::atoll(argv[3]), v1 = (RamDomain)std::atoll(argv[4]);
+static bool g_compiled;   // use getBoundaries<k> (compiled path) instead of lower_bound (interpreter path)
+static int run(int b0, int b1, RamDomain v0, RamDomain v1, bool member) {
     using T = Tuple<RamDomain, 2>;
     EquivalenceRelation<T> rel;
-    // a relation in which v0 (and v1) occur, plus an unrelated class
+    std::vector<std::pair<RamDomain, RamDomain>> inserted;
     RamDomain w = (v0 == 5 ? 6 : 5);
-    rel.insert(v0, b1 ? v1 : w);
+    if (member) { rel.insert(v0, b1 ? v1 : w); inserted.push_back({v0, b1 ? v1 : w}); }
     RamDomain p = 7, q = 8;
     while (p == v0 || p == v1 || p == w || q == v0 || q == v1 || q == w) { p += 10; q += 10; }
-    rel.insert(p, q);
+    rel.insert(p, q); inserted.push_back({p, q});
     std::set<std::pair<RamDomain, RamDomain>> all, want, got;
     for (auto it = rel.begin(); it != rel.end(); ++it) all.insert({(*it)[0], (*it)[1]});
     for (auto& pr : all)
         if ((!b0 || pr.first == v0) && (!b1 || pr.second == v1)) want.insert(pr);
     T low{b0 ? v0 : MIN_RAM_SIGNED, b1 ? v1 : MIN_RAM_SIGNED};
-    for (auto it = rel.lower_bound(low); it != rel.end(); ++it) got.insert({(*it)[0], (*it)[1]});
-    std::printf("relation has %zu pairs; look-up should yield %zu pairs, real lower_bound range yields %zu\n", all.size(), want.size(), got.size());
-    return got == want ? 0 : 1;
+    if (!g_compiled) { for (auto it = rel.lower_bound(low); it != rel.end(); ++it) got.insert({(*it)[0], (*it)[1]}); }
+    else if (b0 && b1) { for (auto& t : rel.template getBoundaries<2>(low)) got.insert({t[0], t[1]}); }
+    else if (b0) { for (auto& t : rel.template getBoundaries<1>(low)) got.insert({t[0], t[1]}); }
+    else { for (auto& t : rel.template getBoundaries<0>(low)) got.insert({t[0], t[1]}); }
+    std::printf("[%s value] relation has %zu pairs; look-up should yield %zu pairs, real lower_bound range yields %zu; ", member ? "member" : "non-member", all.size(), want.size(), got.size());
+    if (got != want) { std::printf("WRONG RANGE\n"); return 1; }
+    // a look-up must not change the relation: grow it and compare with the closure of what was inserted
+    RamDomain p2 = p + 100, q2 = q + 100;
+    rel.insert(p2, q2); inserted.push_back({p2, q2});
+    std::set<std::pair<RamDomain, RamDomain>> after, ref;
+    for (auto it = rel.begin(); it != rel.end(); ++it) after.insert({(*it)[0], (*it)[1]});
+    for (auto& pr : inserted) { ref.insert({pr.first, pr.first}); ref.insert({pr.second, pr.second}); ref.insert(pr); ref.insert({pr.second, pr.first}); }
+    std::printf("after the look-up and one more insert: %zu pairs, closure of the inserted pairs has %zu\n", after.size(), ref.size());
+    return after == ref ? 0 : 1;
+}
+int main(int argc, char** argv) {
+    if (argc < 5) return 2;
+    g_compiled = argc > 5 && std::atoi(argv[5]) != 0;
+    int b0 = std::atoi(argv[1]), b1 = std::atoi(argv[2]);
+    RamDomain v0 = (RamDomain)std::atoll(argv[3]), v1 = (RamDomain)std::atoll(argv[4]);
+    int rc = run(b0, b1, v0, v1, true);
+    if (b0) rc |= run(b0, b1, v0, v1, false);
+    return rc;
 }
